@@ -196,8 +196,12 @@ func Reverse[T any](s []T) {
 // The returned slices use the same underlying array as s.
 func Runs[T any](s []T, same func(a, b T) bool) [][]T {
 	var runs [][]T
+	if len(s) == 0 {
+		return runs
+	}
 	start := 0
-	end := 0
+	// The first element always belongs to the first run.
+	end := 1
 	for i := 1; i < len(s); i++ {
 		if same(s[i-1], s[i]) {
 			end = i + 1
